@@ -91,7 +91,9 @@ def run (lines : Array String) : IO Report := do
           let kind := if obs == "ERR" || obs == "PANIC" then "C14/lookup-error-for-absent-key" else "C14/lookup-wrong"
           diff rep ln "oracle" s!"case={cid} key={kind} lookup of ({kh},{k.take 20}) expected {want.take 80} got {obs.take 80}"
         ok rep
-    | "hmerge" :: srcs =>
+    | "hmerge" :: srcs0 =>
+        let forGC := srcs0.head? == some "gc"
+        let srcs := if forGC then srcs0.drop 1 else srcs0
         let parsed := srcs.filterMap fun s => match s.splitOn "=" with
           | [ck, its] => some (ck.toNat!, parseItems its) | _ => none
         let ds := (List.range parsed.length).foldl (fun m i => max m (1000 * (i + 1))) 0
@@ -99,14 +101,16 @@ def run (lines : Array String) : IO Report := do
         let mm := match HintMerge.kway HintMerge.goHeap parsed with
           | .panic => "PANIC"
           | .aborted _ => "ERR"
-          | .ok out coll => s!"ds={ds} merged={fmtItems out} coll={fmtItems ((coll.foldl HintMerge.ctSet []).foldr insK [])}"
+          | .ok out coll =>
+              if forGC then s!"coll={fmtItems ((coll.foldl HintMerge.ctSet []).foldr insK [])}"
+              else s!"ds={ds} merged={fmtItems out} coll={fmtItems ((coll.foldl HintMerge.ctSet []).foldr insK [])}"
         if mm ≠ obs then diff rep ln "model" s!"case={cid} hmerge: model={mm.take 200} impl={obs.take 200}"
         -- oracle: the specification (per key the entry of greatest position, in (hash,key) order; every member of every
         -- group of different keys sharing a hash reported) — stated for the inputs the code is meant for: sources
         -- non-empty and strictly sorted, no two entries with the same key AND the same position
         if HintMerge.srcsOK parsed && HintMerge.noTies (HintMerge.allItems parsed) then
           let (merged, groups) := merge parsed
-          let m := s!"ds={ds} merged={fmtItems merged} coll={fmtItems groups}"
+          let m := if forGC then s!"coll={fmtItems groups}" else s!"ds={ds} merged={fmtItems merged} coll={fmtItems groups}"
           if m ≠ obs then diff rep ln "oracle" s!"case={cid} key=C14/merge merge result differs from the specification: spec={m.take 200} impl={obs.take 200}"
         ok rep
     | ["end"] => pure ()
